@@ -4,6 +4,7 @@ from typing import TYPE_CHECKING, Optional
 
 from optlang.symbolics import Zero
 
+from ..util.solver import linear_reaction_coefficients
 from .parsimonious import pfba
 
 
@@ -126,7 +127,15 @@ def add_room(
         solution = pfba(model)
 
     prob = model.problem
-    variable = prob.Variable("room_old_objective", ub=solution.objective_value)
+    # the value of the old objective in the reference; a pFBA solution reports
+    # the total flux as its objective value
+    old_value = solution.objective_value
+    if model.objective.is_Linear:
+        old_value = sum(
+            coefficient * solution.fluxes[rxn.id]
+            for rxn, coefficient in linear_reaction_coefficients(model).items()
+        )
+    variable = prob.Variable("room_old_objective", ub=old_value)
     constraint = prob.Constraint(
         model.solver.objective.expression - variable,
         ub=0.0,
